@@ -63,6 +63,11 @@ func (r *Reader) Reset() error {
 
 	r.leafNode = nil
 
+	// restart from the beginning also when the history of a key was being read
+	r.leafValue = nil
+	r.hoff = 0
+	r.skipped = 0
+
 	return nil
 }
 
